@@ -187,7 +187,7 @@ pub fn roll(a: TP) -> TP {
     (t, Prim::Pop(Box::new(a.1)))
 }
 /// separators of argument / parameter lists
-pub const SEPS: &[&str] = &[",", "&", "'n'", "and", ", and"];
+pub const SEPS: &[&str] = &[",", "&", "'n'", "and", ", and", "'N'", ", AND", "And"];
 pub fn sep_tokens(sep: &str) -> Vec<Tk> {
     match sep {
         "," => vec![comma()],
@@ -195,6 +195,9 @@ pub fn sep_tokens(sep: &str) -> Vec<Tk> {
         "'n'" => vec![w("'n'")],
         "and" => vec![kw("and")],
         ", and" => vec![comma(), kw("and")],
+        "'N'" => vec![w("'N'")],
+        ", AND" => vec![comma(), w("AND")],
+        "And" => vec![w("And")],
         _ => panic!("separator"),
     }
 }
